@@ -57,7 +57,7 @@ func trickyString(t *rapid.T) string {
 	n := drawInt(t, 1, 5, "tn")
 	var sb strings.Builder
 	for i := 0; i < n; i++ {
-		sb.WriteString(parts[drawInt(t, 0, len(parts)-1, "tp")])
+		sb.WriteString(parts[drawIdx(t, len(parts), "tp")])
 	}
 	return sb.String()
 }
@@ -85,16 +85,16 @@ func genBytes(t *rapid.T) []byte {
 				sb.WriteByte(byte(drawInt(t, 0x21, 0x7e, "escc")))
 				continue
 			}
-			sb.WriteString(soupTokens[drawInt(t, 0, len(soupTokens)-1, "tok")])
+			sb.WriteString(soupTokens[drawIdx(t, len(soupTokens), "tok")])
 		}
 		return []byte(sb.String())
 	}
 	// structured mutation of a valid serialised document
 	cfg := TreeCfg{MaxDepth: 4, MaxWidth: 4, MaxStr: 8}
-	doc := []byte(stringOf(Build(GenRoot(t, cfg))))
+	doc := []byte(RenderJSON(GenRoot(t, cfg)))
 	nm := drawInt(t, 1, 3, "nmut")
 	for m := 0; m < nm && len(doc) > 0; m++ {
-		i := drawInt(t, 0, len(doc)-1, "i")
+		i := drawIdx(t, len(doc), "i")
 		j := i + drawInt(t, 0, min(8, len(doc)-i), "len")
 		switch drawInt(t, 0, 5, "mut") {
 		case 0: // delete slice
@@ -105,11 +105,11 @@ func genBytes(t *rapid.T) []byte {
 			doc = append([]byte{}, doc...)
 			doc[i] ^= byte(1 << uint(drawInt(t, 0, 7, "bit")))
 		case 3: // transpose two bytes
-			k := drawInt(t, 0, len(doc)-1, "k")
+			k := drawIdx(t, len(doc), "k")
 			doc = append([]byte{}, doc...)
 			doc[i], doc[k] = doc[k], doc[i]
 		case 4: // splice another document in
-			other := []byte(stringOf(Build(GenRoot(t, cfg))))
+			other := []byte(RenderJSON(GenRoot(t, cfg)))
 			doc = append(append(append([]byte{}, doc[:i]...), other...), doc[i:]...)
 		case 5: // truncate
 			doc = doc[:i]
@@ -407,7 +407,9 @@ func checkDoc(root V, st *Stats) error {
 		st.Count("doc.len>=256")
 	}
 	// (c) ill-formed UTF-8 strictly between the root brackets
-	for p := 1; p < len(text); p++ {
+	// documents longer than 80 bytes: every k-th position, k = ceil(len/80), offset by len mod k
+	stride := (len(text) + 79) / 80
+	for p := 1 + len(text)%stride; p < len(text); p += stride {
 		for _, bad := range badUTF8 {
 			for sub := 0; sub < 2; sub++ {
 				var mut string
@@ -455,6 +457,6 @@ func CheckC04(c *C04Case, st *Stats) error {
 
 func init() {
 	Register("C04",
-		"two modes. bytes: random bytes (<=64), token soup over JSON punctuation/literals/escapes/invalid bytes (<=60 tokens), and 1-3 structural mutations (delete/duplicate/flip/transpose/splice/truncate) of serialised documents; each input goes twice through ParseList and ParseObject and once through ParseFile under a termination watchdog: no panic, exactly one of (container, error), same outcome twice, ParseFile == ParseObject, unreadable paths rejected. doc: for a generated tree, EVERY proper byte prefix of String() must be rejected and the whole accepted, and every catalogue sequence of ill-formed UTF-8 (14 kinds) inserted at / substituted for every byte position strictly inside the root brackets must be rejected. Non-trivial = bytes input with a root bracket followed by >=2 bytes; doc with nesting >=2 and a string/key containing a bracket, quote or backslash. Distinct = distinct FNV-64a hash of the case JSON.",
+		"two modes. bytes: random bytes (<=64), token soup over JSON punctuation/literals/escapes/invalid bytes (<=60 tokens), and 1-3 structural mutations (delete/duplicate/flip/transpose/splice/truncate) of serialised documents; each input goes twice through ParseList and ParseObject and once through ParseFile under a termination watchdog: no panic, exactly one of (container, error), same outcome twice, ParseFile == ParseObject, unreadable paths rejected. doc: for a generated tree, EVERY proper byte prefix of String() must be rejected and the whole accepted, and every catalogue sequence of ill-formed UTF-8 (14 kinds) inserted at / substituted for every byte position strictly inside the root brackets (documents over 80 bytes: every ceil(len/80)-th position) must be rejected. Non-trivial = bytes input with a root bracket followed by >=2 bytes; doc with nesting >=2 and a string/key containing a bracket, quote or backslash. Distinct = distinct FNV-64a hash of the case JSON.",
 		GenC04, CheckC04)
 }
